@@ -62,7 +62,12 @@ def rule_exact_loops(ctx, prog, eff, rule="R14.2.exact_loop"):
                         e = {"pb": bufarg}
                         match(C("VolatileSlice::offset", V("pb"), V("n")), p, e)
                         nn = e["n"]
-                        adv_ok = nn[0] == 'ok' and producer(nn) == S
+                        # ... and only where the count is known to be non-zero: advancing by 0 would repeat the same call forever
+                        # (a stream at EOF): every Ok(0) must take the error exit
+                        from ..mir import implies_nonzero
+                        progress = implies_nonzero(b.facts_at(pos), nn) or any(
+                            r[0] == 'cmp' and r[1] == 'Ne' and {deep_strip(r[2]), deep_strip(r[3])} == {deep_strip(nn), ('const', 0)} for r in b.facts_at(pos))
+                        adv_ok = nn[0] == 'ok' and producer(nn) == S and progress
             # Ok(0) => the pinned error kind ; Err(e) => returned unchanged
             zero_ok = pass_ok = False
             for pos, rt in b.return_terms():
